@@ -34,7 +34,10 @@ def run_real(c):
     for pat in programs():
         b = 1 if c.thorough else 0
         if b:
-            n, recs = explore.dfs(SCEN, pat, b, jobs=c.jobs)
+            info = {}
+            n, recs = explore.dfs(SCEN, pat, b, jobs=c.jobs, cap=40000, info=info)
+            if info.get("capped"):
+                c.cov["capped_programs"] = c.cov.get("capped_programs", 0) + 1
         else:
             n, recs = 0, []
         base = c.seed * 1000003
